@@ -3508,3 +3508,23 @@ def r13_15(ctx):
                 "and without failing it: poll_at keeps answering that past instant and an event loop spins until the per-server time-outs have run out", body=b, bb=worst[0], path=worst[1])
     else:
         ctx.ok(('dns::dispatch', 'no due query skipped'), sample=dict(fn='dns::Socket::dispatch', skips='only waiting (retransmit_at > now) or failed (set_state) queries'))
+
+
+@rule('R09.13', ['C09'], floor=2, clause='an ICMP socket bound to a UDP / TCP port recognises the errors for its datagrams from what an ICMP error is guaranteed to quote - the IP header and the first 8 octets, i.e. the ports: accepts_v4 / accepts_v6 do not run the complete-datagram parsers (UdpRepr::parse / TcpRepr::parse check the length field against the quote and verify the checksum, which fails for every truncated quote)')
+def r09_13(ctx):
+    F = ctx.F
+    IC = 'socket::icmp::Socket'
+    n = 0
+    for nm in ('accepts_v4', 'accepts_v6'):
+        b = ctx.method(IC, nm)
+        n += 1
+        full = [x for x in b.calls() if re.search(r'wire::(udp|tcp)::Repr(::<.*>)?::parse$', b.callee_name(x[1]) or '')]
+        ports = [x for x in b.calls() if re.search(r'wire::(udp|tcp)::Packet::<.*>::src_port$', b.callee_name(x[1]) or '')]
+        if full:
+            ctx.bad(f"icmp::Socket::{nm}|needs-complete-quoted-datagram", f"icmp::Socket::{nm} runs {(b.callee_name(full[0][1]) or '').split('wire::', 1)[-1]} on the datagram quoted in the ICMP error: "
+                    "the quote is normally cut after 8 octets (RFC 792), so the length check / checksum verification fails and a socket bound to the UDP or TCP port never receives "
+                    "the port-unreachable / time-exceeded messages for its own datagrams", body=b, bb=full[0][0])
+        else:
+            ctx.need(ports, f"a test of the quoted source port in icmp::Socket::{nm}")
+            ctx.ok((nm, 'ports only'), sample=dict(fn=f'icmp::Socket::{nm}', decides_on='quoted source port'))
+    ctx.need(n == 2, "icmp accepts functions")
